@@ -133,16 +133,22 @@ structure FeaOut where
   h : Array Int
   lastIdx : Int
 
+/-- the end of `solve` with `do_log_h`: `if h[y] == 0: h[y] = 1` -/
+def logFix? (h : Array Int) (y : Int) : Option (Array Int) :=
+  match hGet? h y with
+  | none => none
+  | some hy => if hy = 0 then (wrapIdx h.size y).map (fun p => h.set! p 1) else some h
+
 /-- `TSPFEA1p1revn.solve` (`h = zeros(ub + 1)`) -/
 def feaSolve? (n : Nat) (d : Matrix) (ub : Int) (x0 : List Nat) (moves : List (Nat × Nat)) :
-    Option FeaOut := do
+    Option FeaOut :=
   if ub + 1 < 0 then none else     -- `np.zeros` of a negative length raises
-  let h0 : Array Int := Array.replicate (ub + 1).toNat 0
-  let y0 ← tourLen? d x0
-  let (tr, h, y) ← feaLoop? n d moves h0 x0 y0
-  let hy ← hGet? h y
-  let h' ← if hy = 0 then (wrapIdx h.size y).map (fun p => h.set! p 1) else some h
-  pure ⟨tr, h', y⟩
+  match tourLen? d x0 with
+  | none => none
+  | some y0 =>
+    match feaLoop? n d moves (Array.replicate (ub + 1).toNat 0) x0 y0 with
+    | none => none
+    | some (tr, h, y) => (logFix? h y).map fun h' => ⟨tr, h', y⟩
 
 /-! ### Specification (the property's vocabulary; does not look like the code) -/
 
